@@ -1117,7 +1117,16 @@ class list_t(object):
                 mask_v = mask_v - (1 << self.t.width)
             self.get_model().field_l[k].set_val(ValueScalar(mask_v))
         else:
+            if not issubclass(type(v), type(self.t)):
+                raise Exception("Attempting to assign illegal element to object array")
             self.backing_arr[k] = v
+            # The list's model must refer to the new element as well
+            model = self.get_model()
+            fm = v.get_model()
+            model.set_field(k, fm)
+            fm.is_declared_rand = model.is_declared_rand
+            fm.rand_mode = model.is_declared_rand
+            model.name_elems()
             
     def __str__(self):
         model = self.get_model()
